@@ -3,6 +3,7 @@ import PvModel.Props.C02Program
 import PvModel.Props.C02Decide
 import PvModel.Props.C02Rel
 import PvModel.Props.C02Answer
+import PvModel.Props.C02Query
 #print axioms Pv.C02_invariant_ok
 #print axioms Pv.C02_invariant_fail
 #print axioms Pv.C02_step_ok
@@ -21,3 +22,9 @@ import PvModel.Props.C02Answer
 #print axioms Pv.C02_reported_answer
 #print axioms Pv.C02_reify_goal
 #print axioms Pv.C02_reify_is_reifyState
+#print axioms Pv.C02_query_program
+#print axioms Pv.C02_query_count
+#print axioms Pv.C02_query_tree
+#print axioms Pv.C02_query_exact
+#print axioms Pv.C02_querySideOK_spec
+#print axioms Pv.C02_query_exact_checked
